@@ -746,10 +746,16 @@ def judge_mbi_full(case, ml, il):
 
 def model_ub(case, ml):
     """lines where the model itself predicts undefined behaviour (Fault) on an input inside the contract"""
-    return [l for l in ml if l.endswith(" UB") or " UB " in l or "=UB" in l]
+    return [l for l in ml if l.endswith(" UB") or " UB " in l or "=UB" in l or "UB-SKIPPED" in l]
 
 
-MATCHERS["F18-vbe-memory-model"] = lambda d: all(l.startswith("vbe_mi ") and l.endswith("memory_model=UB") for l in d.get("ub_lines", ["x"]))
+def _is_f18_line(l):
+    """the observables of known finding F18: the memory-model accessor, Debug of the VBE tag, and Debug of a boot
+    information holding such a tag (not formatted by the harness)"""
+    return (l.startswith("vbe_mi ") and l.endswith("memory_model=UB")) or l == "debug vbe_info UB" or l == "debug boot UB-SKIPPED"
+
+
+MATCHERS["F18-vbe-memory-model"] = lambda d: all(_is_f18_line(l) for l in d.get("ub_lines", ["x"]))
 MATCHERS["F18-vbe-memory-model-c08"] = MATCHERS["F18-vbe-memory-model"]
 MATCHERS["F18-vbe-memory-model-c04"] = MATCHERS["F18-vbe-memory-model"]
 
@@ -1011,6 +1017,12 @@ def gen_C19(rng, tier):
                     count(dist, "es_%s" % ("40" if es == 40 else "64" if es == 64 else "other"))
     for (n, es) in ((0xFFFF, 0), (0x10000, 1), (3, 0x80000000), (0x10000, 0x10000), (0xFFFF, 0x10001)):
         cases.append(mbi_case(E.mbi([E.t_elf(n, es, 0, bytes(64))])))
+    # products entry_size * shndx and count * entry_size around 2^32 (the deprecated BootInformation::elf_sections() multiplies too)
+    for n in (0, 1, 2):
+        for (es, sh) in ((0x10000, 0x10000), (0x80000000, 2), (0xFFFFFFFF, 0xFFFFFFFF), (3, 0x55555556), (40, 0x06666667),
+                         (64, 0x04000000), (0x10000, 0xFFFF), (1, 0xFFFFFFFF), (0, 0xFFFFFFFF), (40, 0), (64, 1)):
+            cases.append(mbi_case(E.mbi([E.t_elf(n, es, sh, bytes(64 * max(n, 1)))])))
+            count(dist, "overflowing_products")
     return cases, dict(
         rule="mbi: ELF sections tags for entry counts 0..4 x entry sizes (thorough: 0..128; quick: 16 values around 40 and 64) x "
              "string-table indices 0..5 x section byte lengths {n*es, n*es+-1, n*es+8}, raw types drawn from every class boundary, "
